@@ -32,6 +32,15 @@ func startSabotageBackend(w *World) *countingBackend {
 				up := websocket.Upgrader{CheckOrigin: func(*http.Request) bool { return true }}
 				if c, err := up.Upgrade(rw, r, nil); err == nil {
 					defer c.Close()
+					if strings.Contains(r.URL.Path, "ws-bye") {
+						// says goodbye and hangs up at once
+						c.WriteMessage(websocket.TextMessage, []byte("goodbye"))
+						return
+					}
+					if strings.Contains(r.URL.Path, "ws-stall") {
+						// stops reading for a while (the relay's writer blocks)
+						time.Sleep(30 * time.Second)
+					}
 					for {
 						if _, _, err := c.ReadMessage(); err != nil {
 							return
@@ -131,7 +140,7 @@ func worldC07(w *World) {
 	nBad := t.Range(1, 5, "sabotaged")
 	kinds := []string{"reset-before-headers", "reset-mid-body", "close-mid-body", "garbage", "bad-header", "bad-chunk", "hang-then-close"}
 	if shim {
-		kinds = append(kinds, "shim-garbage-open", "shim-garbage-data", "shim-garbage-poll", "shim-unknown-close", "shim-odd-blob", "shim-odd-blob")
+		kinds = append(kinds, "shim-garbage-open", "shim-garbage-data", "shim-garbage-poll", "shim-unknown-close", "shim-odd-blob", "shim-odd-blob", "shim-data-close-race", "shim-data-close-race", "shim-hangup-before-poll")
 	}
 	type creq struct {
 		tok    string
@@ -192,6 +201,45 @@ func worldC07(w *World) {
 			body := `[{"id":"` + sid + `","msg":` + odd[(k0+1)%len(odd)] + `}]`
 			req, _ = http.NewRequest("POST", "http://proxy:80/shim/data", strings.NewReader(body))
 			w.K.Count("fault.shim_odd_message")
+		case "shim-data-close-race":
+			// a live session (whose backend may have stopped reading), then data posts and
+			// the close of that session in flight together
+			sc := newShimClient(w, 1)
+			path := []string{"ws-", "ws-stall-"}[(len(r.tok)+int(r.at/time.Millisecond))%2]
+			st, rep, _, err := sc.open("ws://example.test/" + path + r.tok)
+			sid := "1"
+			if err == nil && st == 200 && rep != nil {
+				sid = rep.ID
+			}
+			big := wsMsg{Data: bytes.Repeat([]byte("m"), 300000)}
+			var rg sync.WaitGroup
+			for j := 0; j < 4; j++ {
+				rg.Add(1)
+				go func() {
+					defer rg.Done()
+					sc.data(sid, 1, []wsMsg{big, {Data: []byte("small")}})
+				}()
+			}
+			rg.Add(1)
+			go func() {
+				defer rg.Done()
+				sc.close(sid)
+			}()
+			rg.Wait()
+			w.K.Count("fault.shim_data_racing_close")
+			req, _ = http.NewRequest("POST", "http://proxy:80/shim/close", strings.NewReader(`{"id":"`+sid+`"}`))
+		case "shim-hangup-before-poll":
+			// the backend sends a message and hangs up; the poll only comes afterwards
+			sc := newShimClient(w, 1)
+			st, rep, _, err := sc.open("ws://example.test/ws-bye-" + r.tok)
+			sid := "1"
+			if err == nil && st == 200 && rep != nil {
+				sid = rep.ID
+			}
+			time.Sleep(300 * time.Millisecond)
+			sc.poll(sid, 1)
+			w.K.Count("fault.shim_backend_hangup_before_poll")
+			req, _ = http.NewRequest("POST", "http://proxy:80/shim/poll", strings.NewReader(`{"id":"`+sid+`"}`))
 		case "shim-unknown-close":
 			req, _ = http.NewRequest("POST", "http://proxy:80/shim/close", strings.NewReader(`{"id":"424242"}`))
 		default:
